@@ -28,7 +28,8 @@ RULE = (
     "SimpleITK's own index<->physical maps on the complete continuous-index lattice; header -> Grid -> header "
     "chains of 3 rounds; layout (point tensors of index<->world and the header's direction matrix as transposed / "
     "step-sliced / stride-0 expanded views, one size per header class); argument-aliasing histories (second grid from the same argument objects); and all "
-    "histories construct(origin= | center= | from_sitk) -> (query, setter){1,2} on ONE live Grid over the setter "
+    "histories construct(origin= | center= | from_sitk | odd-size grid .downsample() | .resample(1.3 x spacing), the last two with a "
+    "fractional internally stored size) -> (query, setter){1,2} on ONE live Grid over the setter "
     "alphabet {spacing, direction, origin, center, align_corners} x {in-place, copying} + clone and the query "
     "alphabet {none, affine, inverse_affine, origin, index_to_world, ...}, every view (origin, center, affine, "
     "index<->world, Image.sitk() header, from_sitk of it) judged in EVERY reached state against the ITK image "
